@@ -50,6 +50,39 @@ def run(ck):
             bad.append((s, got, cls))
     if bad:
         ck.violation(f'kernel alias table differs: {bad}', dict(bad=bad), key='alias')
+    # every alias, constructed THROUGH THE LEAF MODEL with non-default options (bandwidth, exponent, norm p, constant mix, power): RFM.kernel(x, z) is the documented closed
+    #      form with exactly those options
+    arng = np.random.default_rng(ck.seed + 515)
+    for s_, cls in ALIASES.items():
+        kn_ = {'LaplaceKernel': 'l2', 'LightLaplaceKernel': 'l2_light', 'ProductLaplaceKernel': 'l1', 'LpqLaplaceKernel': 'lpq', 'SumPowerLaplaceKernel': 'sum_power'}[cls]
+        La, qa, pa, ca, pwa = 1.7, 1.3, 1.5, 0.35, 3
+        kw_ = dict(bandwidth=La, exponent=qa, device='cpu', verbose=False)
+        if kn_ == 'lpq':
+            kw_['norm_p'] = pa
+        if kn_ == 'sum_power':
+            kw_.update(const_mix=ca, power=pwa)
+        try:
+            ma = xr.RealRFM(kernel=s_, **kw_)
+            Xa = arng.standard_normal((3, 4)); Za = arng.standard_normal((2, 4))
+            with xr.quiet():
+                Ka = ma.kernel(torch.tensor(Xa), torch.tensor(Za)).double().numpy()
+        except Exception as e:
+            ck.violation(f'alias {s_!r} with options {kw_} raised {e!r}', dict(alias=s_), key=json.dumps(dict(site='alias-options', alias=s_))); continue
+        par_ = dict(L=La, q=qa)
+        if kn_ == 'lpq':
+            par_['p'] = pa
+        if kn_ == 'sum_power':
+            par_.update(const_mix=ca, power=pwa)
+        worst_ = 0.0
+        for a_ in range(3):
+            for b_ in range(2):
+                want_ = float(orc.kernel_closed_form(kn_, [mp.mpf(float(v)) for v in Xa[a_]], [mp.mpf(float(v)) for v in Za[b_]], None, **par_))
+                worst_ = max(worst_, abs(want_ - Ka[a_, b_]))
+        ck.case(dict(kind='alias-options', alias=s_, worst=worst_), nontrivial=True); ck.count('alias constructed through the leaf model with non-default options')
+        if worst_ > (1e-9 if kn_ != 'l2_light' else 1e-6):
+            ck.violation(f'kernel alias {s_!r} built by RFM(kernel=..., {", ".join(f"{k}={v}" for k, v in kw_.items() if k not in ("device", "verbose"))}) differs from the documented closed form with those '
+                         f'options by {worst_:.3g}', dict(alias=s_, options={k: v for k, v in kw_.items() if k not in ('device', 'verbose')}, X=Xa.tolist(), Z=Za.tolist(), got=Ka.tolist()),
+                         key=json.dumps(dict(site='alias-options', alias=s_)))
     try:
         xr.RealRFM(kernel='no_such_kernel', bandwidth=1.0, exponent=1.0, device='cpu', verbose=False)
         ck.violation('unknown kernel alias accepted', dict(), key='alias-unknown')
